@@ -186,6 +186,15 @@ def gen_cases(tier, rng):
     for body in sorted(wrap):
         for ctx in ("data", "dq"):
             cases.append((mk(ctx, body + "z"), "wrap"))
+    # size only: '&' + a long run that is not a reference, long zero-padded numerics (every character must come back)
+    alnum = "abcdefghijklmnopqrstuvwxyzABCDEFGHIJKLMNOPQRSTUVWXYZ0123456789"
+    for n in ((255, 256, 1023, 1024, 1025, 1100) if not full else (255, 256, 257, 1023, 1024, 1025, 1100, 2050, 4097, 16390)):
+        run = (alnum * (n // len(alnum) + 1))[:n]
+        for body in ["&" + run + t for t in (";", " y", "=", "", "&amp;", ";&" + run)] + ["&#" + "0" * n + "65;", "&#x" + "0" * n + "41"]:
+            for ctx in CONTEXTS:
+                for exact in (0, 1):
+                    if body_ok(ctx, body + "z"):
+                        cases.append((mk(ctx, body + "z", exact=exact), "bulk"))
     # overflow lengths and malformed numerics
     for body in ["&#", "&#;", "&#x", "&#x;", "&#xg", "&#a", "&#0;", "&#00000000000000000000065;", "&#x" + "0" * 30 + "41;",
                  "&#" + "9" * 10, "&#" + "9" * 11, "&#" + "9" * 20 + ";", "&#x" + "f" * 8, "&#x" + "f" * 9 + ";", "&#x110000",
